@@ -57,6 +57,9 @@ var (
 	vTableRawFileAccessLock sync.RWMutex = sync.RWMutex{}
 )
 
+// guards aliasToIndexNames and the read-modify-write of the alias files
+var aliasLock sync.RWMutex = sync.RWMutex{}
+
 var aliasToIndexNames map[int64]map[string]map[string]bool = make(map[int64]map[string]map[string]bool)
 
 // holds all the tables for orgid -> tname -> bool
@@ -415,6 +418,9 @@ func AddAliases(indexName string, aliases []string, orgid int64) error {
 		}
 	}
 
+	aliasLock.Lock()
+	defer aliasLock.Unlock()
+
 	currentAliases, err := GetAliases(indexName, orgid)
 	if err != nil {
 		log.Errorf("AddAliases: For indexName=%v, GetAliases returned err=%v", indexName, err)
@@ -442,6 +448,8 @@ func AddAliases(indexName string, aliases []string, orgid int64) error {
 func GetAllAliasesAsMapArray(orgid int64) (map[string][]string, error) {
 	retVal := make(map[string][]string)
 
+	aliasLock.RLock()
+	defer aliasLock.RUnlock()
 	if _, ok := aliasToIndexNames[orgid]; ok {
 		for alias, indexNames := range aliasToIndexNames[orgid] {
 			allIdxNames := []string{}
@@ -536,6 +544,9 @@ func writeAliasFile(indexName *string, allnames map[string]bool, orgid int64) er
 }
 
 func initializeAliasToIndexMap() error {
+	aliasLock.Lock()
+	defer aliasLock.Unlock()
+
 	dirs, err := os.ReadDir(VTableAliasesDir)
 	if err != nil {
 		log.Errorf("initializeAliasToIndexMap: Failed to read directory, vTableAliasesDir=%v, err=%v", VTableAliasesDir, err)
@@ -588,6 +599,7 @@ func initializeAliasToIndexMap() error {
 	return nil
 }
 
+// caller must hold aliasLock
 func putAliasToIndexInMem(aliasName string, indexName string, orgid int64) {
 	if aliasName == "" {
 		log.Errorf("putAliasToIndexInMem: aliasName is empty. len(aliasName)=%v", len(aliasName))
@@ -613,6 +625,8 @@ func FlushAliasMapToFile() error {
 	log.Warnf("FlushAliasMapToFile: Flushing alias map to file on exit")
 	// aliasToIndexNames maps alias -> index names, an alias file holds the aliases of one index:
 	// add every alias that the file of its index does not hold yet
+	aliasLock.Lock()
+	defer aliasLock.Unlock()
 	for orgid := range aliasToIndexNames {
 		for alias, indexNames := range aliasToIndexNames[orgid] {
 			for indexName := range indexNames {
@@ -641,6 +655,8 @@ func GetIndexNameFromAlias(aliasName string, orgid int64) (string, error) {
 		return "", errors.New("getIndexNameFromAlias: aliasName is empty")
 	}
 
+	aliasLock.RLock()
+	defer aliasLock.RUnlock()
 	if _, pres := aliasToIndexNames[orgid][aliasName]; pres {
 		for key := range aliasToIndexNames[orgid][aliasName] {
 			return key, nil
@@ -651,6 +667,8 @@ func GetIndexNameFromAlias(aliasName string, orgid int64) (string, error) {
 }
 
 func IsAlias(nameToCheck string, orgid int64) (bool, string) {
+	aliasLock.RLock()
+	defer aliasLock.RUnlock()
 	if valMap, ok := aliasToIndexNames[orgid][nameToCheck]; ok {
 		for indexName := range valMap {
 			return true, indexName
@@ -675,6 +693,9 @@ func RemoveAliases(indexName string, aliases []string, orgid int64) error {
 		log.Errorf("RemoveAliases: len of aliases was 0. len(aliases)=%v", alLen)
 		return errors.New("len of aliases was 0")
 	}
+
+	aliasLock.Lock()
+	defer aliasLock.Unlock()
 
 	currentAliases, err := GetAliases(indexName, orgid)
 	if err != nil {
@@ -775,6 +796,7 @@ func ExpandAndReturnIndexNames(indexNameIn string, orgid int64, isElastic bool, 
 				}
 				// check all aliases for matches
 				// TODO: what to do for alias when orgid != 0
+				aliasLock.RLock()
 				for alias, indexMap := range aliasToIndexNames[orgid] {
 					if indexRegExp.Match([]byte(alias)) {
 						for index := range indexMap {
@@ -782,6 +804,7 @@ func ExpandAndReturnIndexNames(indexNameIn string, orgid int64, isElastic bool, 
 						}
 					}
 				}
+				aliasLock.RUnlock()
 				// check all indexName matches
 				indexNamesFromFile, _ := GetVirtualTableNames(orgid)
 				for indexNameFromFile := range indexNamesFromFile {
@@ -792,6 +815,7 @@ func ExpandAndReturnIndexNames(indexNameIn string, orgid int64, isElastic bool, 
 			} else {
 				// check if the indexnameIn is an alias if no wildcard
 				// TODO: what to do for alias when orgid != 0
+				aliasLock.RLock()
 				if indexMap, pres := aliasToIndexNames[orgid][indexName]; pres {
 					for index := range indexMap {
 						finalResultsMap[index] = true
@@ -799,6 +823,7 @@ func ExpandAndReturnIndexNames(indexNameIn string, orgid int64, isElastic bool, 
 				} else {
 					finalResultsMap[indexName] = true
 				}
+				aliasLock.RUnlock()
 			}
 		}
 	}
